@@ -1,4 +1,5 @@
 """C01 — parsing is total and safe."""
+import re
 from irbmc import core
 from irbmc.core import Harness
 from props.parser_family import FAM, FAM_POS, P, NOINLINE
@@ -41,12 +42,47 @@ def lex_harness(name, n_list):
     h.termination_claim = 'C01: scanning terminates: a loop of the lexer ran more often than the N+3 bound that the input length allows'
     return h
 
+def parse_internal_harness(tier):
+    rx = P + r'parse_internal\('
+    VEC = r'std::vector<std::unique_ptr<chaiscript::eval::AST_Node_Impl<.*::(push_back|emplace_back)'
+    stubs = [P + r'Statements\(', P + r'Eol\(\)', P + r'build_match<', r'eval_error::eval_error\(', VEC]
+    cuts = [r'eval_error::~eval_error', r'std::unique_ptr<chaiscript::eval::AST_Node_Impl<.*::~unique_ptr', r'chaiscript::Boxed_Value::~Boxed_Value', r'chaiscript::Boxed_Value::Boxed_Value<', r'Noop_AST_Node<.*>::Noop_AST_Node\(\)']
+    g, info = core.translate(FAM, [rx], stubs, tag='P7_probe', cuts=cuts)
+    ext = [e.split('|')[0].strip() for e in info['ext']]
+    def one(pat):
+        m = [e for e in ext if re.search(pat, e)]
+        if len(m) != 1: raise core.BuildError('parse_internal: expected exactly one external matching %s, found %s' % (pat, m))
+        return 'F_' + core.cname(m[0])
+    d = {'PARSE_INTERNAL': core.csym(FAM, rx), 'STATEMENTS': core.csym(FAM, P + r'Statements\(bool\)$'), 'EOL': core.csym(FAM, P + r'Eol\(\)$'),
+         'BUILD_MATCH_FILE': one(r'build_matchINS\w*13File_AST_Node'), 'PUSH_BACK': one(r'^_ZNSt6vectorISt10unique_ptr.*(9push_back|12emplace_back)'), 'EE_CTOR3': one(r'eval_errorC[12]ERKNSt7__cxx1112basic_string.*File_Position')}
+    ns = [0, 1, 2, 3] if tier == 'quick' else [0, 1, 2, 3, 4, 5, 6]
+    h = Harness('P7.parse_internal', FAM, [rx], 'c01_parse_internal.c', stubs=stubs, cuts=cuts,
+                shapes=[dict(d, N=n, _tag='N=%d' % n, _witness=('witness: empty program',) + (('witness: unparsed input reported', 'witness: parsed') if n else ())) for n in ns],
+                opts=['--unwind', str(max(ns) + 3)], timeout=300, mem_gb=8, string_model=True, inputs=['input', 'st_ret'],
+                note='every input of exactly N bytes; Statements()/Eol() are contract stubs (any in-bounds forward move, any result, or eval_error)')
+    h.termination_claim = 'C01: the #! line skip terminates within the input length'
+    def replay(inp, shape, failed):
+        if 'accounts for the entire input' not in failed['desc']: return None, 'no script-level replay for this assertion'
+        from props import C17
+        import tempfile, os
+        exe = C17.interpreter()
+        outs = []
+        for script in (') print("dropped")', '] 1', '@'):
+            with tempfile.NamedTemporaryFile('w', suffix='.chai', delete=False) as f: f.write(script)
+            r = core.run([exe, f.name], timeout=60); os.unlink(f.name)
+            outs.append('%r -> exit %d %s' % (script, r.returncode, r.stdout.strip()[:60]))
+            if r.returncode == 0: return True, 'the real interpreter accepts a text it cannot parse without any error: ' + '; '.join(outs)
+        return False, '; '.join(outs)
+    h.replay = replay
+    return h
+
 def harnesses(tier):
     ns = [0, 1, 2, 3, 4] if tier == 'quick' else [0, 1, 2, 3, 4, 5, 6]
     hs = []
     for k in ['Symbol_', 'Keyword_', 'Char_', 'Eol_', 'SkipComment', 'SkipWS', 'Float_', 'Hex_', 'Binary_', 'read_exponent_and_suffix',
               'Quoted_String_', 'Single_Quoted_String_', 'Id_']:
         hs.append(lex_harness(k, ns))
+    hs.append(parse_internal_harness(tier))
     return hs
 
 ASSUMPTIONS = ['clang-14 -O1 lowering of chaiscript_parser.hpp', 'eval_error constructors/destructor are cut (pair)',
